@@ -855,6 +855,12 @@ func (base *Type) mixin(derived *Type) {
 		derived.unionTypes = make([]*Type, len(base.unionTypes))
 		for i := range base.unionTypes {
 			cpy := *base.unionTypes[i]
+			if (cpy.format == val.FmtLeafRef || cpy.format == val.FmtLeafRefList) && cpy.delegate == base.unionTypes[i] {
+				// a leafref member of a typedef's union waits for the leaf that uses the
+				// typedef: the path is relative to that leaf and resolved when it compiles
+				cpy.format = 0
+				cpy.delegate = nil
+			}
 			derived.unionTypes[i] = &cpy
 		}
 	}
